@@ -247,7 +247,10 @@ def points(tier: str) -> List[Dict[str, Any]]:
     # the same query datagram (id 0, as every real querier sends it) repeated
     for kind in ("ptr", "ptr+txt", "srv"):
         for gs in [(g,) for g in (1, 150, 500, 700, 999, 1000, 1001, 1500)] + \
-                  [(700, 700), (999, 999), (500, 600), (999, 1), (400, 400), (1000, 500)]:
+                  [(700, 700), (999, 999), (500, 600), (999, 1), (400, 400), (1000, 500),
+                   # four in a row: the third is discarded (less than a second after the second was handled), the fourth comes
+                   # more than a second after the last one that WAS handled and before the second's held answer leaves
+                   (700, 700, 310), (700, 700, 250), (999, 999, 5), (600, 900, 150)]:
             for js in ((0.0, 0.0, 0.0), (1.0, 1.0, 1.0)):
                 pts.append({"fam": "multi", "kinds": [kind] * (len(gs) + 1), "gaps": list(gs), "age": 5000, "jitter": list(js),
                             "same_bytes": True})
